@@ -15,6 +15,7 @@ import (
 	"time"
 
 	"github.com/corazawaf/coraza/v3/experimental/plugins/plugintypes"
+	"github.com/corazawaf/coraza/v3/internal/verifhook"
 )
 
 type concurrentWriter struct {
@@ -71,11 +72,17 @@ func (cl concurrentWriter) Write(al plugintypes.AuditLog) error {
 	filename := ymdhm + t.Format("05") + "-" + al.Transaction().ID()
 
 	logdir := path.Join(cl.logDir, ymd, ymdhm)
+	if err := verifhook.Fault("auditlog.concurrent.mkdir"); err != nil {
+		return err
+	}
 	if err := os.MkdirAll(logdir, cl.logDirMode); err != nil {
 		return err
 	}
 
 	filepath := path.Join(logdir, filename)
+	if err = verifhook.Fault("auditlog.concurrent.writefile"); err != nil {
+		return err
+	}
 	if err = os.WriteFile(filepath, formattedAL, cl.logFileMode); err != nil {
 		return err
 	}
